@@ -159,8 +159,12 @@ class LoopMixin:
                     if acc.id in delta.deps():
                         self._set_var(frame, name, Opaque("loop-carried %s (non-additive)" % name))
                     else:
-                        tot = Rat.atom(poly.T.app("fn", "SUM", (Rat.atom(idx), lo, hi, delta))) \
-                            if idx.id in delta.deps() else delta * (hi - lo)
+                        if idx.id in delta.deps():
+                            from .calls import canon_bound
+                            ci, cb = canon_bound(idx, delta)
+                            tot = Rat.atom(poly.T.app("fn", "SUM", (Rat.atom(ci), lo, hi, cb)))
+                        else:
+                            tot = delta * (hi - lo)
                         self._set_var(frame, name, Num(before.r + tot))
                 else:
                     self._set_var(frame, name, Opaque("loop-carried %s" % name))
